@@ -226,10 +226,44 @@ func genCase(r *rand.Rand, w *bufio.Writer, id string) {
 
 // Gen: random scripts; the thorough tier adds, for a set of base transaction scripts, every
 // placement of send/connect results of length <= 5 and every shutdown position.
+// genEmptyMid: an EMPTY builder in the middle of the queue.  A transaction of a request waits for
+// memory, the request's earlier message fails (stream closed), another message goes in flight, a
+// non-empty builder A is queued, the waiting transaction continues: it does not fit into A (size
+// limit), starts its own builder and -- stream closed -- adds nothing; a block > 512KiB cannot join the
+// empty builder and starts the next one.  Then the queue comes to rest, or is shut down at some
+// point, or more traffic arrives.  Every message behind the empty builder must still be reported.
+func genEmptyMid(r *rand.Rand, w *bufio.Writer, id string) {
+	a := []int{300000, 400000, 500000}[r.Intn(3)]
+	x := 520000 - a + []int{0, 50000, 100000}[r.Intn(3)]
+	big := []int{530000, 600000, 700000}[r.Intn(3)]
+	subs := []string{"0 1 2 3", "0 1 2 2", "0 0 1 1"}[r.Intn(3)]
+	fmt.Fprintf(w, "case %s\ncfg 1300000 1073741824 1 %s\n", id, subs)
+	fmt.Fprintf(w, "xalloc 1000000\ntx 0 b1:100000\nack ok n\ntx 0 b2:%d\nack fail n\nack ok n\nack ok n\nxrel 1000000\n", x+20000)
+	fmt.Fprintf(w, "tx 2 b3:1000\ntx 1 b4:%d\nwake\ntx 3 b5:%d\n", a, big)
+	if r.Intn(3) == 0 {
+		fmt.Fprintf(w, "tx 1 b6:%d e11\n", big) // a second big message behind it
+	}
+	switch r.Intn(5) {
+	case 0: // rest
+		fmt.Fprintf(w, "ack ok n\nack ok n\nack ok n\nack ok n\n")
+	case 1: // shutdown while the message before A is in flight
+		fmt.Fprintf(w, "shutdown\nack ok %s\n", []string{"n", "d"}[r.Intn(2)])
+	case 2: // shutdown while A is in flight
+		fmt.Fprintf(w, "ack ok n\nshutdown\nack ok d\n")
+	case 3: // A fails
+		fmt.Fprintf(w, "ack ok n\nack fail n\nack ok n\nack ok n\n")
+	default: // straight to the epilogue
+	}
+	fmt.Fprintf(w, "finish\n")
+}
+
 func Gen(seed int64, n int, tier string, w *bufio.Writer) {
 	r := rand.New(rand.NewSource(seed))
 	for i := 0; i < n; i++ {
 		genCase(r, w, fmt.Sprintf("r%d", i))
+	}
+	for i := 0; i < 12+n/40; i++ {
+		genEmptyMid(r, w, fmt.Sprintf("em%d", i))
 	}
 	if tier == "thorough" {
 		bases := [][]string{
